@@ -16,7 +16,7 @@ from .. import preds, sym
 from ..preds import Scope, canon
 from ..sym import Interp, Unsupported, Struct
 from ..wsdef import WsDef
-from .common import facts_for, optimizer_classes, optimizer_spline_order, strip_copy, is_this_mem, lit_value, write_rhs
+from .common import facts_for, optimizer_classes, optimizer_spline_order, strip_copy, is_this_mem, lit_value, write_rhs, workspace_spline_field
 from . import c12
 
 FIELD_OF_FLAG = {"start_v": "start_velocity", "start_a": "start_acceleration", "start_j": "start_jerk",
@@ -193,7 +193,8 @@ def run(chk):
         rets = [n for n in walk(g["body"]) if n.get("k") == "return"]
         owned = next(x["name"] for x in rec["fields"] if x["ty"].get("std") == "unique_ptr")
         vals = [canon(r["e"], Scope(g)) for r in rets]
-        ok = sorted(vals) == sorted(["(&(*this.%s).spline)" % owned, "nullptr"]) or sorted(vals) == sorted(["(&this.%s.spline)" % owned, "nullptr"])
+        spn = workspace_spline_field(F, cls + "::Workspace")[0]
+        ok = sorted(vals) == sorted(["(&(*this.%s).%s)" % (owned, spn), "nullptr"]) or sorted(vals) == sorted(["(&this.%s.%s)" % (owned, spn), "nullptr"])
         chk.ob("C09-R5", "%s::getOptimalSpline exposes the built-in workspace's spline (or nullptr before it exists)" % cls, ok, loc(g), str(vals), construct=cls + "/getOptimalSpline")
         for f in evs:
             sc = Scope(f)
@@ -795,7 +796,7 @@ def check_spatial_and_time(chk, F, cls, f, sc, is_guess):
                 # R4: when the decode loop starts, the waypoint buffer is wholly defined, on every path, as a copy of the reference
                 idx = f["body"]["body"].index(lp)
                 wsrec = cls + "::Workspace"
-                W = WsDef(F, cls, wsrec, next(x["ty"]["n"] for x in F.record(wsrec)["fields"] if x["name"] == "spline"), {})
+                W = WsDef(F, cls, wsrec, workspace_spline_field(F, wsrec)[1], {})
                 W.count_member = COUNT["name"]
                 W.fn_stack.append(f)
                 W.stmts(f["body"]["body"][:idx])
